@@ -65,6 +65,10 @@ def rand_ballots(rng, n=None, **kw):
         b = dict(rng.choice(pool))
         if rng.random() < 0.5:
             b["w"] = rng.choice(["1", "2", "1/2", "5"])
+        if not b.get("r") and rng.random() < 0.3:   # no ranking written as an empty tuple
+            b["empty_tuple"] = True
+        if rng.random() < 0.15:                      # weights whose sums need denominators near / above 10^6
+            b["w"] = rng.choice(gen.W_FINE)
         if b.get("r") and rng.random() < 0.3:       # same content, groups written in another order
             b["r"] = [list(reversed(g)) for g in b["r"]]
         if b.get("s") and len(b["s"]) > 1 and rng.random() < 0.4:   # same scores, dict filled in another order
@@ -79,6 +83,11 @@ def corpus_cases():
         # condense order dependence (repaired): unscored then scored ballot with the same ranking
         {"kind": "condense", "ballots": [{"r": A, "s": None, "w": "1"}, {"r": A, "s": {"A": "1"}, "w": "2"}], "shuffle_seed": 1},
         {"kind": "condense", "ballots": [{"r": A, "s": {"A": "1"}, "w": "2"}, {"r": A, "s": None, "w": "1"}], "shuffle_seed": 2},
+        # empty ranking tuple vs no ranking (repaired)
+        {"kind": "condense", "ballots": [{"r": None, "s": None, "w": "1"}, {"r": None, "s": None, "w": "2", "empty_tuple": True},
+                                         {"r": None, "s": {"A": "0"}, "w": "3"}], "shuffle_seed": 3},
+        {"kind": "eq", "p": {"ballots": [{"r": None, "s": None, "w": "1"}, {"r": None, "s": None, "w": "2", "empty_tuple": True}], "cands": ["A"]},
+         "q": {"ballots": [{"r": None, "s": None, "w": "3"}], "cands": ["A"]}},
         # __eq__ wildcard (repaired)
         {"kind": "eq", "p": {"ballots": [{"r": A, "s": {"A": "1"}, "w": "1"}, {"r": A, "s": None, "w": "1"}], "cands": None},
          "q": {"ballots": [{"r": A, "s": {"A": "2"}, "w": "1"}, {"r": A, "s": None, "w": "1"}], "cands": None}},
